@@ -1,4 +1,4 @@
-import Frp.Model.Visitor
+import Frp.Model.VisitorLock
 /-
   C08 — Secret proxies admit only visitors holding the key and an allowed user.
 
@@ -12,6 +12,12 @@ import Frp.Model.Visitor
      was admitted under the key and allow list of the very entry that holds it).
   §4 wrapper stacks of an admitted stream mirror each other for all 16 option combinations.
   §5 the executable predicate evaluated by the driver on the implementation's own answers.
+  §6 every interleaving (Frp/Model/VisitorLock.lean): NewConn small-step (checks … held up in
+     WithEncryption … PutConn) next to Listen / CloseListener under the manager's RWMutex: the bundle a
+     NewConn was checked against is still the registered one when the connection is handed over
+     (`finv_reachable`), the hand-over is the atomic NewConn of §1 at that moment
+     (`finish_refines_newConn`), the queue invariant of §3 holds in every reachable state
+     (`cqinv_reachable`); the predicate for one observed delivery (`deliveredOkB`).
 
   All theorems are for an arbitrary key derivation `H` (no property of md5 is used).
 -/
@@ -876,6 +882,405 @@ example : (natVisit true (fun x => x) witnessCfgs [] [49] [112] 7 (authInput [11
   decide +kernel
 example : (natVisit false (fun x => x) witnessCfgs [] [49] [112] 7 (authInput [115] 7) [109] false).2 = .granted 0 := by
   decide +kernel
+
+/-! ## §6 every interleaving of NewConn with Listen / CloseListener (the manager's RWMutex) -/
+
+/-- the immutable part of a bundle: pointer, key, list -/
+def core (l : Listener) : Nat × Str × List Str := (l.lid, l.sk, l.allow)
+
+/-- `ls'` has, under every name, a bundle with the same pointer, key and list as `ls` -/
+def SameBundles (ls ls' : List (Str × Listener)) : Prop := ∀ n, (aget ls' n).map core = (aget ls n).map core
+
+theorem sameBundles_refl (ls : List (Str × Listener)) : SameBundles ls ls := fun _ => rfl
+
+theorem sameBundles_aput (ls : List (Str × Listener)) (name : Str) (l l' : Listener) (hl : aget ls name = some l)
+    (hc : core l' = core l) : SameBundles ls (aput ls name l') := by
+  intro n
+  rw [aget_aput]
+  by_cases e : name = n
+  · subst e; simp [hl, hc]
+  · simp [e]
+
+theorem putConn_sameBundles (ls : List (Str × Listener)) (name : Str) (l : Listener) (q : QItem)
+    (hl : aget ls name = some l) : SameBundles ls (putConn ls name l q).1 := by
+  unfold putConn
+  split
+  · exact sameBundles_refl _
+  · split
+    · exact sameBundles_refl _
+    · exact sameBundles_aput ls name l _ hl rfl
+
+/-- a flight's bundle is the one registered under its name, and the request passed that bundle's checks -/
+def FlightOk (H : Str → Str) (ls : List (Str × Listener)) (f : Flight) : Prop :=
+  ∃ l, aget ls f.req.name = some l ∧ l.lid = f.lid ∧ l.sk = f.sk ∧ l.allow = f.allow ∧
+    f.req.sign = authKey H l.sk f.req.ts ∧ UserAllowed l.allow f.req.user
+
+/-- the lock invariant: while a NewConn is in flight the bundle it read is still the registered one;
+    writers wait only while there are readers -/
+def FInv (H : Str → Str) (c : CState) : Prop :=
+  (∀ f ∈ c.flights, FlightOk H c.s.listeners f) ∧ (c.pending ≠ [] → c.flights ≠ [])
+
+theorem flightOk_same (H : Str → Str) (ls ls' : List (Str × Listener)) (f : Flight) (h : SameBundles ls ls')
+    (hf : FlightOk H ls f) : FlightOk H ls' f := by
+  obtain ⟨l, hl, h1, h2, h3, h4, h5⟩ := hf
+  have := h f.req.name
+  rw [hl] at this
+  cases hl' : aget ls' f.req.name with
+  | none => rw [hl'] at this; simp at this
+  | some l' =>
+    rw [hl'] at this
+    simp only [Option.map_some, Option.some.injEq, core, Prod.mk.injEq] at this
+    obtain ⟨e1, e2, e3⟩ := this
+    exact ⟨l', hl', by rw [e1, h1], by rw [e2, h2], by rw [e3, h3], by rw [e2]; exact h4, by rw [e3]; exact h5⟩
+
+theorem checks_ok (H : Str → Str) (ls : List (Str × Listener)) (r : Req) (l : Listener) (h : checks H ls r = .ok l) :
+    aget ls r.name = some l ∧ r.sign = authKey H l.sk r.ts ∧ UserAllowed l.allow r.user := by
+  unfold checks at h
+  split at h
+  · cases h
+  · next l0 hl0 =>
+    by_cases h1 : authKey H l0.sk r.ts ≠ r.sign
+    · rw [if_pos h1] at h; cases h
+    · by_cases h2 : (!allowedB l0.allow r.user) = true
+      · rw [if_neg h1, if_pos h2] at h; cases h
+      · rw [if_neg h1, if_neg h2] at h
+        cases h
+        refine ⟨hl0, (Decidable.of_not_not h1).symm, (allowedB_iff _ _).mp ?_⟩
+        simpa using h2
+
+/-- NewConn is its checks followed by PutConn (the wrappers change nothing in the table) -/
+theorem newConn_eq_checks_put (H : Str → Str) (ls : List (Str × Listener)) (r : Req) :
+    newConn H ls r.name r.ts r.sign r.user r.conn =
+      match checks H ls r with
+      | .error e => (ls, .err e)
+      | .ok l => putConn ls r.name l (item r) := by
+  cases hl : aget ls r.name with
+  | none => simp only [newConn, checks, hl]
+  | some l =>
+    simp only [newConn, checks, hl, putConn, item]
+    by_cases h1 : authKey H l.sk r.ts ≠ r.sign
+    · simp only [if_pos h1]
+    · by_cases h2 : (!allowedB l.allow r.user) = true
+      · simp only [if_neg h1, if_pos h2]
+      · simp only [if_neg h1, if_neg h2]
+
+/-- a step of the stateful core on lclose / accept keeps every bundle's pointer, key and list -/
+theorem step_lclose_same (fixed : Bool) (H : Str → Str) (s : State) (name : Str) :
+    SameBundles s.listeners (step fixed H s (.lclose name)).1.listeners := by
+  simp only [step]
+  split
+  · exact sameBundles_refl _
+  · next l hl => exact sameBundles_aput _ name l _ hl rfl
+
+theorem step_accept_same (fixed : Bool) (H : Str → Str) (s : State) (name : Str) :
+    SameBundles s.listeners (step fixed H s (.accept name)).1.listeners := by
+  simp only [step]
+  split
+  · exact sameBundles_refl _
+  · next l hl =>
+    split
+    · exact sameBundles_refl _
+    · exact sameBundles_aput _ name l _ hl rfl
+
+theorem finishPut_same (ls : List (Str × Listener)) (f : Flight) (ivOk : Bool) :
+    SameBundles ls (finishPut ls f ivOk).1 := by
+  unfold finishPut
+  split
+  · exact sameBundles_refl _
+  · split
+    · next l hl =>
+      split
+      · exact putConn_sameBundles ls _ l _ hl
+      · exact sameBundles_refl _
+    · exact sameBundles_refl _
+
+theorem finv_init (H : Str → Str) : FInv H {} := ⟨fun _ hf => (by cases hf), fun h => absurd rfl h⟩
+
+/-- every label preserves the lock invariant -/
+theorem finv_step (fixed : Bool) (H : Str → Str) (c : CState) (lbl : Lbl) (h : FInv H c) :
+    FInv H (cstep fixed H c lbl).1 := by
+  obtain ⟨hf, hp⟩ := h
+  cases lbl with
+  | «begin» r =>
+    simp only [cstep]
+    by_cases hpe : c.pending ≠ []
+    · rw [if_pos hpe]; exact ⟨hf, hp⟩
+    · rw [if_neg hpe]
+      cases hc : checks H c.s.listeners r with
+      | error e => exact ⟨hf, hp⟩
+      | ok l =>
+        obtain ⟨hl, hk, hu⟩ := checks_ok H _ r l hc
+        simp only
+        by_cases he : r.enc = true
+        · rw [if_pos he]
+          refine ⟨?_, fun _ => by simp⟩
+          intro f hfm
+          rcases List.mem_append.mp hfm with hfm | hfm
+          · exact hf f hfm
+          · have := List.mem_singleton.mp hfm
+            subst this
+            exact ⟨l, hl, rfl, rfl, rfl, hk, hu⟩
+        · rw [if_neg he]
+          refine ⟨?_, hp⟩
+          intro f hfm
+          exact flightOk_same H _ _ f (putConn_sameBundles _ _ l _ hl) (hf f hfm)
+  | finish conn ivOk =>
+    simp only [cstep]
+    split
+    · exact ⟨hf, hp⟩
+    · next f hfind =>
+      split
+      · exact ⟨fun _ h => (by cases h), fun h => absurd rfl h⟩
+      · next hrest =>
+        refine ⟨?_, fun _ => hrest⟩
+        intro g hg
+        exact flightOk_same H _ _ g (finishPut_same _ f ivOk) (hf g (List.mem_filter.mp hg).1)
+  | write w =>
+    simp only [cstep]
+    by_cases hb : c.flights ≠ [] ∨ c.pending ≠ []
+    · rw [if_pos hb]
+      refine ⟨hf, fun _ => ?_⟩
+      rcases hb with hb | hb
+      · exact hb
+      · exact hp hb
+    · rw [if_neg hb]
+      have h1 : c.flights = [] := Decidable.of_not_not (fun h => hb (.inl h))
+      have h2 : c.pending = [] := Decidable.of_not_not (fun h => hb (.inr h))
+      refine ⟨?_, fun h => absurd h2 h⟩
+      intro f hfm
+      rw [h1] at hfm
+      cases hfm
+  | lclose name =>
+    exact ⟨fun f hfm => flightOk_same H _ _ f (step_lclose_same fixed H c.s name) (hf f hfm), hp⟩
+  | accept name =>
+    exact ⟨fun f hfm => flightOk_same H _ _ f (step_accept_same fixed H c.s name) (hf f hfm), hp⟩
+
+/-- for every interleaving of NewConn calls (begun, held up in WithEncryption, finished in any
+    order), Listen / CloseListener calls, listener closures and accepts: the invariant holds -/
+theorem finv_reachable (fixed : Bool) (H : Str → Str) (lbls : List Lbl) : FInv H (crun fixed H {} lbls) := by
+  suffices ∀ c, FInv H c → FInv H (crun fixed H c lbls) from this {} (finv_init H)
+  induction lbls with
+  | nil => intro c h; exact h
+  | cons l ls ih => intro c h; exact ih _ (finv_step fixed H c l h)
+
+theorem checks_of_flightOk (H : Str → Str) (ls : List (Str × Listener)) (f : Flight) (hf : FlightOk H ls f) :
+    ∃ l, aget ls f.req.name = some l ∧ l.lid = f.lid ∧ checks H ls f.req = .ok l := by
+  obtain ⟨l, hl, h1, _, _, h4, h5⟩ := hf
+  refine ⟨l, hl, h1, ?_⟩
+  have ha := (allowedB_iff _ _).mpr h5
+  simp only [checks, hl, h4, ne_eq, not_true_eq_false, if_false, ha, Bool.not_true, Bool.false_eq_true]
+
+/-- the hand-over of a flight (small-step: checks earlier, PutConn now) is exactly the atomic NewConn
+    on the table as it is at the moment of the hand-over -/
+theorem finishPut_is_newConn (H : Str → Str) (ls : List (Str × Listener)) (f : Flight) (hf : FlightOk H ls f) :
+    finishPut ls f true = newConn H ls f.req.name f.req.ts f.req.sign f.req.user f.req.conn := by
+  obtain ⟨l, hl, hlid, hc⟩ := checks_of_flightOk H ls f hf
+  rw [newConn_eq_checks_put, hc]
+  simp only [finishPut, Bool.not_true, Bool.false_eq_true, if_false, hl, hlid, if_true]
+
+theorem find_mem (c : CState) (conn : Nat) (f : Flight) (h : c.flights.find? (fun f => f.req.conn = conn) = some f) :
+    f ∈ c.flights := List.mem_of_find?_eq_some h
+
+/-- `finish` in full, for every reachable state: the atomic NewConn at that moment, then (when the
+    last reader leaves) the waiting writers in order -/
+theorem finish_refines_newConn (fixed : Bool) (H : Str → Str) (c : CState) (conn : Nat) (f : Flight) (h : FInv H c)
+    (hfind : c.flights.find? (fun f => f.req.conn = conn) = some f) :
+    cstep fixed H c (.finish conn true) =
+      (if c.flights.filter (fun g => g.req.conn ≠ conn) = [] then
+        ({ s := (flush { c.s with listeners := (newConn H c.s.listeners f.req.name f.req.ts f.req.sign f.req.user f.req.conn).1 } c.pending).1,
+           flights := [], pending := [] },
+         .finished (newConn H c.s.listeners f.req.name f.req.ts f.req.sign f.req.user f.req.conn).2
+           (flush { c.s with listeners := (newConn H c.s.listeners f.req.name f.req.ts f.req.sign f.req.user f.req.conn).1 } c.pending).2)
+      else
+        ({ c with s := { c.s with listeners := (newConn H c.s.listeners f.req.name f.req.ts f.req.sign f.req.user f.req.conn).1 },
+                  flights := c.flights.filter (fun g => g.req.conn ≠ conn) },
+         .finished (newConn H c.s.listeners f.req.name f.req.ts f.req.sign f.req.user f.req.conn).2 [])) := by
+  have hp := finishPut_is_newConn H c.s.listeners f (h.1 f (find_mem c conn f hfind))
+  simp only [cstep, hfind, hp]
+
+/-- whatever a finishing flight is handed to: that listener is registered under the requested name
+    NOW, the signature is its key, the user is in its list -/
+theorem finish_delivery_sound (fixed : Bool) (H : Str → Str) (c : CState) (conn lid : Nat) (f : Flight) (ws : List Out)
+    (h : FInv H c) (hfind : c.flights.find? (fun f => f.req.conn = conn) = some f)
+    (ho : (cstep fixed H c (.finish conn true)).2 = .finished (.queued lid) ws ∨
+          (cstep fixed H c (.finish conn true)).2 = .finished (.dropped lid) ws) :
+    Admissible H c.s.listeners f.req.name f.req.ts f.req.sign f.req.user lid := by
+  rw [finish_refines_newConn fixed H c conn f h hfind] at ho
+  apply newConn_sound H c.s.listeners f.req.name f.req.ts f.req.sign f.req.user f.req.conn lid
+  split at ho
+  · rcases ho with ho | ho
+    · left; simp only [COut.finished.injEq] at ho; exact ho.1
+    · right; simp only [COut.finished.injEq] at ho; exact ho.1
+  · rcases ho with ho | ho
+    · left; simp only [COut.finished.injEq] at ho; exact ho.1
+    · right; simp only [COut.finished.injEq] at ho; exact ho.1
+
+/-- the RWMutex: while any NewConn is in flight a Listen / CloseListener does not happen — it waits,
+    the table is what it was -/
+theorem write_waits_for_readers (fixed : Bool) (H : Str → Str) (c : CState) (w : WOp) (h : c.flights ≠ []) :
+    cstep fixed H c (.write w) = ({ c with pending := c.pending ++ [w] }, .blocked) := by
+  simp only [cstep, h, ne_eq, not_false_eq_true, true_or, if_true]
+
+/-- a failing IV source: error, nothing handed over; the table changes only by the writers that waited -/
+theorem finish_failed_unchanged (fixed : Bool) (H : Str → Str) (c : CState) (conn : Nat) (f : Flight)
+    (hfind : c.flights.find? (fun f => f.req.conn = conn) = some f) :
+    (∃ ws, (cstep fixed H c (.finish conn false)).2 = .finished (.err .encFailed) ws) ∧
+    (cstep fixed H c (.finish conn false)).1.s =
+      if c.flights.filter (fun g => g.req.conn ≠ conn) = [] then (flush c.s c.pending).1 else c.s := by
+  simp only [cstep, hfind, finishPut, Bool.not_false, if_true]
+  split
+  · exact ⟨⟨_, rfl⟩, rfl⟩
+  · exact ⟨⟨_, rfl⟩, rfl⟩
+
+/-- a NewConn that is refused at its checks leaves everything as it was -/
+theorem begin_refused_unchanged (fixed : Bool) (H : Str → Str) (c : CState) (r : Req) (e : Err)
+    (h : (cstep fixed H c (.begin r)).2 = .conn (.err e)) : (cstep fixed H c (.begin r)).1 = c := by
+  simp only [cstep] at h ⊢
+  split
+  · rfl
+  · next hpe =>
+    rw [if_neg hpe] at h
+    cases hc : checks H c.s.listeners r with
+    | error e' => rfl
+    | ok l =>
+      rw [hc] at h
+      simp only at h ⊢
+      by_cases he : r.enc = true
+      · rw [if_pos he] at h; cases h
+      · rw [if_neg he] at h ⊢
+        simp only [putConn] at h ⊢
+        by_cases hcl : l.closed = true
+        · simp only [hcl, if_true]
+        · rw [if_neg hcl] at h
+          by_cases hq : l.queue.length ≥ acceptCap
+          · rw [if_pos hq] at h; cases h
+          · rw [if_neg hq] at h; cases h
+
+/-- without encryption there is nothing to wait for: `begin` is the atomic NewConn -/
+theorem begin_atomic (fixed : Bool) (H : Str → Str) (c : CState) (r : Req) (he : r.enc = false) (hp : c.pending = []) :
+    cstep fixed H c (.begin r) =
+      ({ c with s := { c.s with listeners := (newConn H c.s.listeners r.name r.ts r.sign r.user r.conn).1 } },
+       .conn (newConn H c.s.listeners r.name r.ts r.sign r.user r.conn).2) := by
+  have hpe : ¬ (c.pending ≠ []) := fun h => h hp
+  rw [newConn_eq_checks_put]
+  simp only [cstep, if_neg hpe, he, Bool.false_eq_true, if_false]
+  cases checks H c.s.listeners r
+  · rfl
+  · rfl
+
+theorem applyW_eq_step (fixed : Bool) (H : Str → Str) (s : State) (w : WOp) :
+    applyW s w = match w with
+      | .listen name sk allow => step fixed H s (.listen name sk allow)
+      | .close name => step fixed H s (.closeListener name) := by
+  cases w <;> rfl
+
+theorem qinv_flush (fixed : Bool) (H : Str → Str) (ws : List WOp) : ∀ s, QInv fixed H s → QInv fixed H (flush s ws).1 := by
+  induction ws with
+  | nil => intro s h; exact h
+  | cons w ws ih =>
+    intro s h
+    simp only [flush]
+    apply ih
+    rw [applyW_eq_step fixed H]
+    cases w
+    · exact qinv_step fixed H s _ h
+    · exact qinv_step fixed H s _ h
+
+/-- the queue invariant (everything waiting in an accept channel was admitted under the key and list
+    of the entry holding it) is kept by every label of the concurrent system -/
+theorem cqinv_step (fixed : Bool) (H : Str → Str) (c : CState) (lbl : Lbl) (hf : FInv H c) (h : QInv fixed H c.s) :
+    QInv fixed H (cstep fixed H c lbl).1.s := by
+  cases lbl with
+  | «begin» r =>
+    simp only [cstep]
+    split
+    · exact h
+    · cases hc : checks H c.s.listeners r with
+      | error e => exact h
+      | ok l =>
+        simp only
+        split
+        · exact h
+        · have := qinv_newConn H c.s.listeners r.name r.ts r.sign r.user r.conn h.1
+          rw [newConn_eq_checks_put, hc] at this
+          exact ⟨this, h.2⟩
+  | finish conn ivOk =>
+    cases hfind : c.flights.find? (fun f => f.req.conn = conn) with
+    | none => simp only [cstep, hfind]; exact h
+    | some f =>
+      have hput : QInv fixed H { c.s with listeners := (finishPut c.s.listeners f ivOk).1 } := by
+        cases ivOk
+        · exact h
+        · rw [finishPut_is_newConn H _ f (hf.1 f (find_mem c conn f hfind))]
+          exact ⟨qinv_newConn H c.s.listeners _ _ _ _ _ h.1, h.2⟩
+      simp only [cstep, hfind]
+      split
+      · exact qinv_flush fixed H _ _ hput
+      · exact hput
+  | write w =>
+    simp only [cstep]
+    split
+    · exact h
+    · rw [applyW_eq_step fixed H]
+      cases w
+      · exact qinv_step fixed H c.s _ h
+      · exact qinv_step fixed H c.s _ h
+  | lclose name => exact qinv_step fixed H c.s (.lclose name) h
+  | accept name => exact qinv_step fixed H c.s (.accept name) h
+
+/-- all interleavings: both invariants hold in every state the concurrent system can reach -/
+theorem cqinv_reachable (fixed : Bool) (H : Str → Str) (lbls : List Lbl) :
+    FInv H (crun fixed H {} lbls) ∧ QInv fixed H (crun fixed H {} lbls).s := by
+  suffices ∀ c, FInv H c → QInv fixed H c.s → FInv H (crun fixed H c lbls) ∧ QInv fixed H (crun fixed H c lbls).s from
+    this {} (finv_init H) (qinv_init fixed H)
+  induction lbls with
+  | nil => intro c h1 h2; exact ⟨h1, h2⟩
+  | cons l ls ih => intro c h1 h2; exact ih _ (finv_step fixed H c l h1) (cqinv_step fixed H c l h1 h2)
+
+/-! ### the predicate for one observed delivery -/
+
+/-- a connection made with (ts, sign, user) came out of the accept channel of a listener that was
+    registered with (sk, allow): the property demands the key and the user -/
+def deliveredOkB (H : Str → Str) (sk : Str) (allow : List Str) (ts : Int) (sign user : Str) : Bool :=
+  sign == authKey H sk ts && allowedB allow user
+
+theorem deliveredOkB_iff (H : Str → Str) (sk : Str) (allow : List Str) (ts : Int) (sign user : Str) :
+    deliveredOkB H sk allow ts sign user = true ↔ sign = authKey H sk ts ∧ UserAllowed allow user := by
+  simp only [deliveredOkB, Bool.and_eq_true, beq_iff_eq, allowedB_iff]
+
+/-- in every state reachable by any interleaving, whatever an owner takes out of its accept channel
+    satisfies the predicate for the owner's own key and list -/
+theorem reachable_accept_delivered_ok (fixed : Bool) (H : Str → Str) (lbls : List Lbl) (name : Str) (l : Listener)
+    (q : QItem) (rest : List QItem)
+    (hl : aget (crun fixed H {} lbls).s.listeners name = some l) (hq : l.queue = q :: rest) :
+    deliveredOkB H l.sk l.allow q.ts q.sign q.user = true := by
+  rw [deliveredOkB_iff]
+  have := (cqinv_reachable fixed H lbls).2.1 _ (mem_of_aget _ _ _ hl) q (by simp only [hq]; exact List.mem_cons_self)
+  exact this
+
+/-! ### non-vacuity: a concrete interleaving -/
+
+def exReq : Req := { name := [112], ts := 7, sign := authKey exH [115] 7, user := [97], conn := 1, enc := true }
+
+/-- listen p (key s, [a]); NewConn p begins and stands in WithEncryption; CloseListener p and
+    Listen p (key t, [b]) arrive: both wait; the NewConn finishes -/
+def exLbls : List Lbl :=
+  [.write (.listen [112] [115] [[97]]), .begin exReq, .write (.close [112]), .write (.listen [112] [116] [[98]])]
+
+example : (crun false exH {} exLbls).flights.length = 1 ∧ (crun false exH {} exLbls).pending.length = 2 ∧
+    (aget (crun false exH {} exLbls).s.listeners [112]).map core = some (0, [115], [[97]]) := by decide +kernel
+-- the connection is handed to listener 0 (the one it was checked against); then the two writers run
+example : (cstep false exH (crun false exH {} exLbls) (.finish 1 true)).2 = .finished (.queued 0) [.ok, .ok] := by
+  decide +kernel
+-- afterwards p is the new listener 1 with the new key and an empty accept channel
+example : (aget (cstep false exH (crun false exH {} exLbls) (.finish 1 true)).1.s.listeners [112]).map
+    (fun l => (core l, l.queue)) = some ((1, [116], [[98]]), []) := by decide +kernel
+-- a failing IV source: error, and the writers run all the same
+example : (cstep false exH (crun false exH {} exLbls) (.finish 1 false)).2 = .finished (.err .encFailed) [.ok, .ok] := by
+  decide +kernel
+-- the hypotheses of finish_delivery_sound are met
+example : (crun false exH {} exLbls).flights.find? (fun f => f.req.conn = 1) =
+    some { req := exReq, lid := 0, sk := [115], allow := [[97]] } := by decide +kernel
 
 end C08
 end Frp
